@@ -104,6 +104,8 @@ var mandatory = map[string]bool{
 	"updateIndex.start":   true,
 	"handleChange.afterDo": true,
 	"store.open":          true,
+	"mut.op":              true,
+	"mut.intxn":           true,
 }
 
 // New creates a simulation driven by the tape.
